@@ -647,10 +647,16 @@ class Model():
 
             # Note: in reflexive associations the asset can be present in
             # both fields, in which case both directions have to be checked.
+            # The assets are matched by id: comparing the generated objects
+            # themselves is done by value, which follows the association
+            # back-references and does not terminate for some reflexive
+            # structures.
             opposite_field_names = []
-            if asset in getattr(association, left_field_name):
+            if asset.id in [field_asset.id for field_asset in \
+                    getattr(association, left_field_name)]:
                 opposite_field_names.append(right_field_name)
-            if asset in getattr(association, right_field_name):
+            if asset.id in [field_asset.id for field_asset in \
+                    getattr(association, right_field_name)]:
                 opposite_field_names.append(left_field_name)
 
             for opposite_field_name in opposite_field_names:
